@@ -1,12 +1,20 @@
 """C17 — a retained session behaves like one growing program (static clauses)."""
 from mirlib import *
-from rules import vmx as vmxmod
+from synlib import *
+from rules import vmx as vmxmod, csa_run, psc
+from rules.psc import sym, strip
 
 META = {
     'title': 'A retained session behaves like one growing program',
-    'explanation': 'placeholder',
+    'explanation': 'R17.1 VM::run re-initialises every field of the VM that is not declared persistent (globals) before the dispatch loop '
+                   '(field census by type declaration + dominators). R17.2 compile_ast is transactional for its per-line state: after an '
+                   'Err the instruction buffer, loop contexts, peephole register and scope/context depth are what they were (CSA error-exit '
+                   'states + an explicit reset on the error path). R17.3 global definitions of a failed line are removed or reading a '
+                   'never-stored slot is defined. R17.4 nothing that persists across lines (VM.globals, Compiler.constants) may refer to '
+                   'something whose lifetime is a single line (the per-run collector\'s objects, positions in the per-line code buffer).',
     'not_decided': ['the session/concatenation equivalence itself (a relation between runs)'],
 }
+PERSISTENT = {'globals': "the session's variables"}
 
 
 def pre_loop_blocks(ctx):
@@ -32,4 +40,115 @@ def frames_reset_ok(ctx):
 
 
 def run(ctx, rep):
-    raise CheckerError('C17 rules not built yet')
+    F = ctx.facts()
+    S = ctx.syn()
+    rep.rule('R17.1', 'VM::run resets every non-persistent field of the VM before the dispatch loop')
+    rep.rule('R17.2', 'compile_ast restores its per-line state (code buffer, loop contexts, peephole register, scopes, contexts) on Err')
+    rep.rule('R17.3', 'definitions of a failed line are removed, or reading a never-stored global slot is defined')
+    rep.rule('R17.4', 'persistent places do not refer to single-line owners')
+    fn, header, pre = pre_loop_blocks(ctx)
+    vm = F.adt('vm::VM')
+    fields = [f['name'] for f in vm['variants'][0]['fields']]
+    rep.count('vm_fields', len(fields))
+    resets = {}
+    for b in pre:
+        for st in fn.blocks[b]['stmts']:
+            if st['k'] == 'assign' and st['place']['local'] == 1:
+                fl = place_fields(st['place'])
+                if len(fl) == 1:
+                    resets.setdefault(fl[0], []).append('assigned')
+                elif fl:
+                    resets.setdefault(fl[0], []).append('partial:' + '.'.join(fl[1:]))
+        t = fn.term(b)
+        if t['k'] == 'call' and t['args']:
+            n = callee_name(t)
+            d = fn.def_rvalue(t['args'][0])
+            if d and d[0] == 'assign' and d[3]['k'] == 'ref' and d[3]['place']['local'] == 1:
+                fl = place_fields(d[3]['place'])
+                if fl and (n.endswith('::clear') or n.endswith('::truncate')):
+                    resets.setdefault(fl[0], []).append(n.split('::')[-1])
+                elif fl and n.endswith('IndexMut<I>>::index_mut'):
+                    resets.setdefault(fl[0], []).append('partial:element')
+    rep.table('vm_field_resets', resets)
+    for f_ in fields:
+        if f_ in PERSISTENT:
+            rep.good('R17.1', 'vm::VM::run', 'field ' + f_, 'declared persistent: ' + PERSISTENT[f_], 'src/vm.rs', nontrivial=False)
+            continue
+        how = resets.get(f_, [])
+        full = any(h in ('assigned', 'clear', 'truncate') for h in how)
+        rep.ob(full, 'R17.1', 'vm::VM::run', 'field ' + f_,
+               'must be re-initialised before executing a new line (found: %s)%s' % (how or 'nothing', '; only element 0 is rewritten, extra frames of a failed line survive' if f_ == 'frames' and how else
+                                                                                       ('; stale operands of a failed line stay on the stack and are handed to the collector as roots' if f_ == 'stack' else '')),
+               'src/vm.rs')
+    # ---- R17.2 ---------------------------------------------------------------------------------
+    R = csa_run.analyse(ctx)
+    errs = R['errs']
+    dirty = {'instructions': sum(1 for e in errs if e['emitted']), 'loop_contexts': sum(1 for e in errs if e['loops']),
+             'scopes': sum(1 for e in errs if e['scopes']), 'contexts': sum(1 for e in errs if e['contexts']), 'pending jumps': sum(1 for e in errs if e['pending'])}
+    rep.table('compiler_error_exit_states', dict(dirty, total=len(errs)))
+    rep.count('compiler_error_exits', len(errs))
+    ca_syn = S.method('src/compiler.rs', 'Compiler', 'compile_ast')
+    ca = F.fn('compiler::Compiler::compile_ast')
+    # what does compile_ast do on its Err paths?  collect resets performed on paths that return Err
+    restored = {'instructions': False, 'loop_contexts': False, 'last_instruction': False, 'symbols': False}
+    err_paths = 0
+    for p in AbsInt(F, ca, max_paths=5000).run():
+        r = simp(p.env.get('_0'))
+        if p.exit != 'return' or not r or r[0] not in ('errof',) and not (r[0] == 'agg' and r[2] == 'Err'):
+            continue
+        err_paths += 1
+        this = {k: False for k in restored}
+        for c in p.calls:
+            n = c[1]
+            a0 = str(c[2][0]) if c[2] else ''
+            if n.endswith('::clear') or n.endswith('::truncate') or n.endswith('mem::take'):
+                if 'f2' in a0 or 'instructions' in a0:
+                    this['instructions'] = True
+                if 'loop_contexts' in a0 or 'f4' in a0:
+                    this['loop_contexts'] = True
+            if n.startswith('symbols::SymbolTable::') and ('reset' in n or 'rollback' in n or 'restore' in n or 'truncate' in n):
+                this['symbols'] = True
+        for w in p.writes:
+            fl = place_fields(w[3]['place'])
+            if fl[:1] == ['last_instruction']:
+                this['last_instruction'] = True
+            if fl[:1] == ['instructions']:
+                this['instructions'] = True
+            if fl[:1] == ['loop_contexts']:
+                this['loop_contexts'] = True
+            if fl[:1] == ['symbols']:
+                this['symbols'] = True
+        if err_paths == 1:
+            restored = this
+        else:
+            restored = {k: restored[k] and this[k] for k in restored}
+    rep.count('compile_ast_err_paths', err_paths)
+    # field indices are positional; resolve names from the ADT
+    comp = F.adt('compiler::Compiler')
+    for comp_name, dirty_key in (('instructions', 'instructions'), ('loop_contexts', 'loop_contexts'), ('last_instruction', 'instructions'), ('symbols', 'scopes')):
+        can_be_dirty = dirty.get(dirty_key, 0) > 0 or (comp_name == 'symbols' and (dirty['scopes'] or dirty['contexts']))
+        rep.ob((not can_be_dirty) or restored.get(comp_name), 'R17.2', 'compiler::Compiler::compile_ast', 'Err path restores ' + comp_name,
+               '%d error exits of the compiler leave `%s` modified; compile_ast must reset it before returning Err (found reset: %s)' % (
+                   dirty.get(dirty_key, 0) if comp_name != 'symbols' else dirty['scopes'] + dirty['contexts'], comp_name, restored.get(comp_name)), ca.loc())
+    # ---- R17.3 ---------------------------------------------------------------------------------
+    v = vmxmod.vmx(ctx)
+    gg = v['arms'].get('GetGlobal')
+    sites = [s for s in psc.census(ctx) if s['fn'] == fn.path and gg and s['block'] in gg['region'] and s['kind'] == 'call']
+    from rules import c05
+    und = [s for s in sites if c05.discharge(F, s) is None]
+    defs_removed = restored.get('symbols')
+    rep.ob(defs_removed or not und, 'R17.3', 'vm::VM::run', 'never-stored global slot',
+           'a failed line leaves its `stel` definitions in the symbol table; reading such a slot indexes globals out of bounds (panic) unless GetGlobal checks', 'src/vm.rs')
+    # ---- R17.4 ---------------------------------------------------------------------------------
+    # (globals, per-run collector): globals persist in the VM, heap objects they point to are owned by the GC local of run()
+    gcs_local = any(callee_name(t) == 'gc::GC::new' for b, t in fn.calls())
+    vm_has_gc = any('gc::GC' in f['ty'] for f in vm['variants'][0]['fields'])
+    rep.ob(not gcs_local or vm_has_gc, 'R17.4', 'vm::VM', 'globals vs per-run collector',
+           'VM.globals outlives run(), but every heap object a global points to is owned by the collector created (and dropped) inside run(): '
+           'after the line ends the global dangles (latent today only because the sweep frees nothing)', 'src/vm.rs')
+    # (globals / constants, per-line code buffer): function values carry an absolute code position; compile_ast moves the buffer out
+    takes = [t for b, t in ca.calls() if callee_name(t).endswith('mem::take') and 'instructions' in str(sym(ca, t['args'][0]))]
+    func_has_pos = True
+    rep.ob(not takes, 'R17.4', 'compiler::Compiler::compile_ast', 'function values vs per-line code buffer',
+           'function values (in globals and in the retained constant pool) hold absolute positions in the instruction buffer, but compile_ast '
+           'hands out a fresh buffer per line (mem::take): a function defined on an earlier line points into code that no longer exists', ca.loc())
